@@ -225,8 +225,30 @@ func GenPool(t *rapid.T, cfg Cfg, n int) []string {
 		pool = append(pool, s)
 	}
 	for tries := 0; len(pool) < n && tries < 4*n+8; tries++ {
-		mode := rapid.IntRange(0, 9).Draw(t, "poolMode")
+		mode := rapid.IntRange(0, 10).Draw(t, "poolMode")
 		switch {
+		case mode == 10 && len(pool) > 0:
+			// competing kinds at one position: the same prefix continued by a named, a regexp and
+			// (when the router has interceptors) an interceptor parameter, with equal or different tails
+			base := MustParse(rapid.SampledFrom(pool).Draw(t, "kbase"), cfg.Icpt)
+			cut := runeCut(base, rapid.IntRange(1, len(base.Atoms)).Draw(t, "kcut"))
+			tail := rapid.SampledFrom([]string{"", "/", "/a", ".html", "-"}).Draw(t, "ktail")
+			for j := 0; j < 3; j++ {
+				b := newBuilder(cfg)
+				b.seed(base, cut)
+				if !b.canParam() {
+					break
+				}
+				b.addParam(t)
+				if tail != "" && b.litOK(tail) {
+					b.sb.WriteString(tail)
+					b.lastParam = nil
+					if rapid.IntRange(0, 3).Draw(t, "kmore") == 0 {
+						b.extend(t, 1)
+					}
+				}
+				add(b.sb.String())
+			}
 		case mode < 4 || len(pool) == 0:
 			add(GenPattern(t, cfg))
 		case mode < 8:
